@@ -299,8 +299,23 @@ def ipv6_parse(tier):
     return o
 
 
+def dns_len(tier):
+    """checkers::verify_dns_length (has_valid_domain) vs the DNS limits; lengths around the 63 / 253 / 254 boundaries"""
+    o = []
+    for n in lens(tier, (0, 1, 2, 5, 12, 24), list(range(0, 33))):
+        o.append(Obl(f"dns_len_n{n}", "dns_len.c", [U("vk_verify_dns_length")], defs={"N": n, "KERNEL": "F_vk_verify_dns_length"},
+                     unwind=n + 2, helper_unwind=n + 2, harness_unwind=n + 2, witness=(1 <= n <= 254), mem_gb=8,
+                     timeout=(120 if tier == Q else 1800), weight=(1 if n < 30 else 4)))
+    # the 63 / 253 / 254 boundaries: all strings with at most two dots (symbolic positions), other bytes symbolic
+    for n in lens(tier, (), (63, 64, 65, 66, 253, 254)) + [255, 256]:
+        o.append(Obl(f"dns_len2_n{n}", "dns_len.c", [U("vk_verify_dns_length")], defs={"N": n, "KERNEL": "F_vk_verify_dns_length", "DOTS2": 1},
+                     unwind=n + 2, helper_unwind=n + 2, harness_unwind=n + 2, witness=(1 <= n <= 254), mem_gb=10,
+                     timeout=(300 if tier == Q else 1800), weight=4))
+    return o
+
+
 def prop_C10(tier):
-    return ipv4_kernels(tier) + ser_ipv4(tier) + ipv4_full(tier) + ipv6_ser(tier) + ipv6_parse(tier)
+    return ipv4_kernels(tier) + ser_ipv4(tier) + ipv4_full(tier) + ipv6_ser(tier) + ipv6_parse(tier) + dns_len(tier)
 
 
 def prop_C11(tier):
@@ -604,6 +619,8 @@ IDNA_BASE_CASE = ("C06", "C16")
 URLPATTERN_BASE_CASE = ("C14", "C15")
 # url_search_params::sort beyond the 16-element bound of the solver obligation (libstdc++ switches algorithm there)
 SORT_BASE_CASE = ("C12",)
+# list-of-pairs model over histories, C++ object and C API handle in lock-step (harness/sp_model.cpp)
+SP_MODEL_BASE_CASE = ("C12", "C17")
 # the same sweep under limits around the sizes involved (C09: setters under a limit)
 SETTER_LIMIT_BASE_CASE = ("C09",)
 
